@@ -206,8 +206,25 @@ def run(case):
                             for cat in list(c.categories)[:2]:
                                 g.gamma_k(cat)
                         return g
-                    out = common.sim_call(work, sch)
+                    # observer thread: the inputs must look unchanged at EVERY instant of the pooled computation,
+                    # not only once it has returned (a job that modifies and restores its input is invisible afterwards)
+                    c_before, d_before = snap_cont(c), snap_dissim(d)
+                    transient = []
+
+                    def watch():
+                        now = snap_cont(c)
+                        if now[:4] != c_before[:4] and not transient:
+                            transient.append("continuum: " + ",".join(FIELDS[j] for j in range(4) if now[j] != c_before[j]))
+                        if snap_dissim(d) != d_before and not transient:
+                            transient.append("dissimilarity")
+                        stats["watcher_observations"] = stats.get("watcher_observations", 0) + 1
+                    out = common.sim_call(work, sch, watcher=watch if op[8] or True else None)
                     common.sim_stats(out, stats)
+                    if transient:
+                        violation = {"kind": "input_modified_during_computation",
+                                     "msg": f"step {step} {op[:6]}: an observer thread saw the input {transient[0]} changed while "
+                                            f"compute_gamma was running in the pool (it may have been restored afterwards)",
+                                     "sig": {"op": k, "what": transient[0].split(":")[0]}, "step": step}
                     if out.error is not None:
                         stats["op_raised"] = stats.get("op_raised", 0) + 1
                     else:
@@ -315,6 +332,8 @@ def run(case):
         except Exception as e:  # noqa: BLE001 - not judged; snapshots still are
             stats["op_raised"] = stats.get("op_raised", 0) + 1
             stats["raised_" + k] = stats.get("raised_" + k, 0) + 1
+        if violation:
+            break
         if skipped:
             stats["ops_skipped"] = stats.get("ops_skipped", 0) + 1
         else:
